@@ -32,9 +32,6 @@ Plan gen_thr(uint64_t seed, const GenOpts& g) {
     if (rng.chance(0.25)) sw.set("real:infty", rng.pick({"1e100", "1e30", "1e20"}));
     if (rng.chance(0.3)) sw.set("real:feastol", rational ? "0" : rng.pick({"1e-6", "1e-7", "1e-9"}));
     if (rational && rng.chance(0.5)) sw.set("bool:precision_boosting", I(rng.range(0, 1)));
-    // unresolved observation (DESIGN.md 15): source and copy solved in overlapping time slices with precision boosting
-    // influence each other; until that is classified the source of a handed-over copy runs without boosting
-    if (t == copyFrom) sw.set("bool:precision_boosting", "0");
     ops.push_back(sw);
     Op ld = mk(t, A, "load"); ld.set("lp", I(lpi)); ld.set("via", rational ? "rational" : "real"); ops.push_back(ld);
     int nsolve = rng.range(1, 3);
